@@ -4,6 +4,7 @@ CONSTANTS
   MaxLen = 7
   Scale = 1
   LawId = "lin"
+  LawTable <- EmptyTable
   FixedJunction = TRUE
 INVARIANT SecondPassIsSteadyState
 INVARIANT Memory3OnlyFirstPassSymmetric
